@@ -593,6 +593,46 @@ pub fn gen_renamed_asked(r: &mut Rng, tag: &'static str) -> String {
     format!("sim {} {}", tag, cmds.join(" ; "))
 }
 
+/// Two or three services of ONE daemon that share a host name - and its address record - and
+/// are registered back to back with DIFFERENT jitters (the later one often with the shorter), or
+/// with a third one that brings another address for the same host (the host-name probe starts
+/// over).  The probe of the shared host name is owned by whoever came first; everybody who joined
+/// must still be woken when it finishes: every service is announced, twice.
+pub fn gen_shared_host(r: &mut Rng, tag: &'static str) -> String {
+    let topo = Topo::new(topo_of(r));
+    let mut cmds: Vec<String> = vec![topo.daemon_cmd(), "ipint 0 100000".to_string()];
+    if !r.chance(1, 8) {
+        cmds.push("monitor 0 900".to_string());
+    }
+    let mut now = 1_000_000u64;
+    cmds.push(format!("run {}", now));
+    let n = r.range(2, 3) as usize;
+    let first = gen_svc(r, &topo, 0);
+    let jits: &[u64] = &[249, 200, 100, 0, 0, 125];
+    for i in 0..n {
+        let mut s = gen_svc(r, &topo, i);
+        s.inst = format!("{}-{}", s.inst, i);
+        s.host = first.host.clone();
+        s.ips = first.ips.clone();
+        if i == 2 || (i == 1 && r.chance(1, 4)) {
+            // the same host name with another address of the same subnet
+            s.ips = vec![topo.addr_pool(5)[0].clone()];
+        }
+        let j = if i == 0 { *r.pick(&[249u64, 200, 100]) } else { *r.pick(jits) };
+        cmds.push(format!("jit 0 {}", j));
+        cmds.push(s.register_cmd());
+        if r.chance(1, 2) {
+            now += *r.pick(&[0u64, 1, 50, 130, 260, 600]);
+            cmds.push(format!("run {}", now));
+        }
+    }
+    now += 5000;
+    cmds.push(format!("run {}", now));
+    now += 2000;
+    cmds.push(format!("run {}", now));
+    format!("sim {} {}", tag, cmds.join(" ; "))
+}
+
 fn count(tier: &str, quick: u64, thorough: u64) -> u64 {
     let base = if tier == "thorough" { thorough } else { quick };
     // development aid: VERIF_SCALE=3 triples the number of histories
@@ -631,6 +671,9 @@ pub fn generate_c07(r: &mut Rng, tier: &str, emit: &mut dyn FnMut(String)) {
             shutdown: r.chance(1, 6), jitter: None,
         };
         emit(gen_history(r, &k));
+    }
+    for _ in 0..count(tier, 100, 1000) {
+        emit(gen_shared_host(r, "C07"));
     }
 }
 
